@@ -39,7 +39,7 @@ CLAIMED = {
             "DESIGN.md 4 C07", "Per scenario the cut-point set is covered completely in the thorough tier up to the dense prefix (4096 offsets) and strided beyond; scenarios themselves are sampled.",
             SIM + ": cut-point sweep (fault enumeration) over seeded scenarios"),
     "C08": ("exploration",
-            "Hostile scripted peer (raw byte corruption, illegal frame orders, malformed and invalid-HPACK blocks, floods) against both roles with applications running: every poll runs under catch_unwind (no panic), a livelock oracle bounds polls without transport/API progress (no self-wake loop), and after whatever happened the connection either still serves or has ended with every handle resolved.",
+            "Hostile scripted peer (raw byte corruption, illegal frame orders, malformed and invalid-HPACK blocks, floods) against both roles with applications running: every poll runs under catch_unwind (no panic), a livelock oracle bounds polls without transport/API progress (no self-wake loop), what the endpoint writes must be covered by what its application submitted plus what the peer sent (no unbounded output per input byte), and after whatever happened the connection either still serves or has ended with every handle resolved; directed scenario: a server pushing behind a blocked writer while the client sends GOAWAY.",
             "DESIGN.md 4 C08", "Work-per-byte is bounded through the step budget and the no-progress oracle rather than wall-clock; inputs are sampled.",
             SIM + ": hostile scripted peer, panic/livelock/outcome oracles"),
     "C09": ("exploration",
@@ -75,7 +75,7 @@ CLAIMED = {
             "DESIGN.md 4 C16", "The freeze experiment of the design is replaced by the books-vs-wire invariants (same truth, checked at every sample instead of at drawn freezes).",
             SIM + ": capacity invariants + probe stream at quiescence"),
     "C17": ("exploration",
-            "RST_STREAM counter per stream on the wire (never two, except RST_STREAM(STREAM_CLOSED) answering a late peer frame), never before the stream's HEADERS, no DATA after it; resets and last-handle drops at every operation index with arbitrary 32-bit codes; error facts (reason, is_remote/is_library/is_io, is_reset/is_go_away) recorded from every failing handle.",
+            "RST_STREAM counter per stream on the wire (never two, except RST_STREAM(STREAM_CLOSED) answering a late peer frame), never before the stream's HEADERS, no DATA after it; resets and last-handle drops at every operation index with arbitrary 32-bit codes; error facts (reason, is_remote/is_library/is_io, is_reset/is_go_away) recorded from every failing handle and every poll_reset result are cross-checked against the RST_STREAM/GOAWAY frames the endpoint really processed or sent (exact code and origin); where nothing else can have failed the stream, a processed peer reset must be what the receive handles report; in runs with resets the fidelity oracles of the other streams must stay clean.",
             "DESIGN.md 4 C17", "Exactly-one is enforced as 'never two and never on idle'; 'none when already closed' relies on C04's automaton.",
             SIM + ": wire RST counter + API error facts"),
     "C18": ("exploration",
@@ -83,7 +83,7 @@ CLAIMED = {
             "DESIGN.md 4 C18", "Bounds are generous linear formulas (they separate bounded from unbounded growth, not tight accounting).",
             SIM + ": hostile floods + stats-bound oracle"),
     "C19": ("exploration",
-            "Phase-gated runs: when every stream is finished and every stream handle dropped but both connections and one request handle are alive, the statistics snapshot must show no stream record except remembered local resets, empty buffers, zero concurrency counters, nothing in flight, windows equal to the wire accountant and the expected handle count; then the last handle is dropped and the client must send GOAWAY(NO_ERROR), shut down and complete Ok (all tasks finish).",
+            "Phase-gated runs: when every stream is finished and every stream handle dropped but both connections and one request handle are alive, the statistics snapshot must show no stream record except remembered local resets, empty buffers, zero concurrency counters, nothing in flight, windows equal to the wire accountant and the expected handle count; then the last handle is dropped and the client must send GOAWAY(NO_ERROR), shut down and complete Ok (all tasks finish); in the opposite order (request handle dropped first, streams - some of them reset - finishing later) the client connection must notice by itself that nothing is left and close.",
             "DESIGN.md 4 C19", "Internal state is read through the guarded stats hook (read-only).",
             SIM + ": idle-state oracle at quiescence"),
     "C20": ("exploration",
